@@ -320,6 +320,13 @@ def run(prog, chk):
     if n_txt < 10:
         raise Broken("only %d callback sites with a `next_char - k` text argument found" % n_txt)
 
+    r5 = chk.rule("R5-eof-sentinel-stays-in-scanner", "the value a parser function returns is never the scanner's private CIF_EOF "
+                  "mark (-1, read by callers as a traversal directive): it is produced only by the buffer-refill functions and "
+                  "replaced by every function that receives it", primary=False, floor=15)
+    from .. import eofsentinel
+    if eofsentinel.rule(prog, r5) < 15:
+        raise Broken("fewer than 15 int functions analysed in parser.c")
+
     r4 = chk.rule("R4-termination-and-read-bounds", "no loop of the parser units is idempotent (call-free, without loop-carried state: "
                   "such a loop cannot make progress once entered); no pointer into the read buffer is dereferenced under `<=` "
                   "against an exclusive end", primary=False, floor=60)
